@@ -369,12 +369,13 @@ def matrix_pivot(m, sign=False):
     mp = deepcopy(m)
     n = len(mp)
     p = matrix_identity(n)  # permutation matrix
+    me = [[float(v) for v in r] for r in m]  # eliminated copy, used only for choosing the pivot rows
     num_rowswap = 0
     for j in range(0, n):
         row = j
         a_max = 0.0
         for i in range(j, n):
-            a_abs = abs(mp[i][j])
+            a_abs = abs(me[i][j])
             if a_abs > a_max:
                 a_max = a_abs
                 row = i
@@ -384,6 +385,12 @@ def matrix_pivot(m, sign=False):
                 # Swap rows
                 p[j][q], p[row][q] = p[row][q], p[j][q]
                 mp[j][q], mp[row][q] = mp[row][q], mp[j][q]
+                me[j][q], me[row][q] = me[row][q], me[j][q]
+        if me[j][j] != 0.0:
+            # Eliminate column j, so that the next pivot is chosen as partial pivoting requires
+            for i in range(j + 1, n):
+                f = me[i][j] / me[j][j]
+                me[i] = [vi - f * vj for vi, vj in zip(me[i], me[j])]
     if sign:
         return mp, p, math.pow(-1, num_rowswap)
     return mp, p
